@@ -238,6 +238,7 @@ def run_case(case):
                 snap_at_fit = None
                 lastfit = None
                 user_touched = False
+                touched_since_fit = False
                 for op in hist:
                     trans += 1
                     try:
@@ -245,6 +246,7 @@ def run_case(case):
                             base.fit(D[op[1]]["X"], yfor(name, D[op[1]]))
                             snap = pickle.dumps(base)
                             user_touched = True
+                            touched_since_fit = True
                             continue
                         if op[0] == "fit":
                             d = D[op[1]]
@@ -254,6 +256,7 @@ def run_case(case):
                                 bad("fit does not return self", "fit", hdesc)
                             fitted = True
                             lastfit = op[1]
+                            touched_since_fit = False
                             if case["copy"] or not case["trainable"]:
                                 if pickle.dumps(base) != snap_at_fit:
                                     bad("the original estimator was modified", "copy_estimator=%s,trainable=%s" % (case["copy"], case["trainable"]), hdesc)
@@ -272,8 +275,8 @@ def run_case(case):
                             else:
                                 ref = pickle.loads(pickle.dumps(base)) if not case["trainable"] else pickle.loads(snap_at_fit)
                             if case["trainable"]:
-                                if not case["copy"] and user_touched and hist.index(("retrain", 1)) > max(i for i, h in enumerate(hist) if h[0] == "fit"):
-                                    continue   # the user re-trained the shared object after the wrapper: no single reference
+                                if not case["copy"] and touched_since_fit:
+                                    continue   # the user re-trained the shared object after the wrapper's last fit: no single reference
                                 ref = ref.fit(D[lastfit]["X"], yfor(name, D[lastfit]))
                             exp = numpy.asarray(getattr(ref, resolved)(P))
                             if not numpy.array_equal(got, exp):
